@@ -114,6 +114,10 @@ func main() {
 		climbMain(seed, evals, os.Args[4])
 		return
 	}
+	if len(os.Args) == 3 && os.Args[1] == "rawlong" {
+		rawLongMain(os.Args[2])
+		return
+	}
 	if len(os.Args) == 3 && os.Args[1] == "concur" {
 		concurMain(os.Args[2])
 		return
